@@ -355,6 +355,14 @@ func c02QCStream(w *c02World, st *c02Streams) {
 	// genesis
 	w.evalQC(st, w.mkQC(w.render(c02Spec{absent: true}), 0, "G"), "genesis", true)
 	w.evalQC(st, w.mkQC(hq, 0, "G"), "genesis-with-some-signature", false)
+	// the genesis hash is accepted only with view 0 and without a signature (9eff227)
+	w.evalQC(st, w.mkQC(w.render(c02Spec{absent: true, typedNil: true}), 0, "G"), "genesis-nil-pointer-signature", true)
+	w.evalQC(st, w.mkQC(w.render(c02Spec{}), 0, "G"), "genesis-empty-signature-object", false)
+	w.evalQC(st, w.mkQC(w.render(c02Spec{parts: []c02Part{{label: uint64(w.n + 1), signer: 0}}}), 0, "G"), "genesis-made-up-non-member-signer", false)
+	w.evalQC(st, w.mkQC(w.render(c02Spec{parts: []c02Part{{label: 1, signer: 0}}}), 0, "G"), "genesis-made-up-member-signer", false)
+	w.evalQC(st, w.mkQC(w.render(c02Spec{parts: w.genuine(c02Range(1, w.q), w.mBlock("G"))}), 0, "G"), "genesis-genuine-quorum-over-genesis-block", false)
+	w.evalQC(st, w.mkQC(w.render(c02Spec{parts: w.genuine(c02Range(1, w.n), w.mBlock("G"))}), 0, "G"), "genesis-all-members-over-genesis-block", false)
+	w.evalQC(st, w.mkQC(w.render(c02Spec{absent: true, typedNil: true}), 3, "G"), "genesis-nil-pointer-view-relabelled", false)
 	w.evalQC(st, w.mkQC(w.render(c02Spec{absent: true}), 7, "G"), "genesis-view-relabelled", false)
 	w.evalQC(st, w.mkQC(hq, 1, "G"), "genesis-view-relabelled-signed", false)
 	w.evalQC(st, w.mkQC(w.render(c02Spec{absent: true}), 0, "Z"), "zero-value-qc", false)
